@@ -422,6 +422,13 @@ CLAUSES = [
         check_pixels,
         cases,
         budget={"quick": 3000, "thorough": 150000},
-        floors={},
+        # measured minima over seeds 1..7 (quick) are >= 2x each floor
+        floors={"alpha:thr": 0.35, "alpha:none": 0.03, "alpha:hex": 0.05, "alpha:termbg": 0.03,
+                "alpha_in_run": 0.03, "atr:upper_to_opaque": 0.01, "atr:upper_to_transparent": 0.01,
+                "atr:lower_to_opaque": 0.01, "atr:lower_to_transparent": 0.01,
+                "multi_run": 0.2, "workaround": 0.18, "no_workaround": 0.3, "nudge_cells": 0.06,
+                "exact": 0.3, "resampled": 0.2, "uniform": 0.05, "has_transparent": 0.1,
+                "bg_unknown": 0.1, "mode:RGBA": 0.1, "mode:LA": 0.05, "mode:PA": 0.05, "mode:P": 0.05,
+                "mode:1": 0.02, "mode:L": 0.02, "mode:RGB": 0.02, "mode:CMYK": 0.02, "mode:HSV": 0.02},
     ),
 ]
